@@ -7,6 +7,7 @@ def run(ctx: common.Ctx):
     doc_checks.run_c05(ctx)
     doc_checks.run_c05_costs(ctx)
     doc_checks.run_c05_comment_handover(ctx)
+    doc_checks.run_c06_glued_removals(ctx, 'C05')
     tree_check.correspondence(ctx, 'C05')
 
 
@@ -14,6 +15,7 @@ def search(ctx: common.Ctx):
     doc_checks.run_c05(ctx)
     doc_checks.run_c05_costs(ctx)
     doc_checks.run_c05_comment_handover(ctx)
+    doc_checks.run_c06_glued_removals(ctx, 'C05')
 
 
 def replay(ctx, path):
